@@ -281,8 +281,10 @@ def emit_labels():
     return out
 
 
-def site_key(labels, enc, opidx, what):
+def site_key(labels, enc, opidx, what, mnemonic=None):
     ls = labels.get(enc, set())
+    if what == "arrangement-view" and mnemonic:
+        return "a64:%s:%s:op%d-arrangement-view-unchecked" % (enc, mnemonic, opidx)
     if what == "reg-id" and opidx == 2 and "EmitOp_Rd0_Rn5_Rm16" in ls:
         return "a64:EmitOp_Rd0_Rn5_Rm16:op2-reg-id-unchecked"
     if what in ("base-zr", "base-reg-id", "pre-index-not-allowed") and "EmitOp_MemBaseIndex_Rn5_Rm16" in ls:
@@ -422,7 +424,7 @@ def judge_refusals(chk, tier, scale=1.0):
                 cnt["a64_marking_refuted_by_llvm"] += 1
                 continue
             dtxt = c["dis"][0] if c["dis"] else None
-            chk.violation(site_key(labels, enc, c["opidx"], c["what"]),
+            chk.violation(site_key(labels, enc, c["opidx"], c["what"], recs[c["rec"]]["name"].split(".")[0]),
                           "%s [%s] is unencodable (%s) but emit() returned kOk and appended %s (LLVM reads that as `%s`)" % (c["line"], sig(rec), c["what"], r["bytes"], dtxt), replay)
     cnt["a64_unencodable_kinds"] = len(kinds)
     return dict(cnt)
@@ -535,12 +537,12 @@ def run(tier, args):
                 refuted = True
                 if len(notes_refuted) < 40:
                     notes_refuted.append("%s | %s | %s" % (sig(rec), c["vclass"], c["text"]))
-                if c["what"] != "scalar-view":   # another record of the same instruction covers that view: no annotation is wrong
+                if c["what"] not in ("scalar-view", "arrangement-view"):   # another record of the same instruction covers that view: no annotation is wrong
                     db_annot.setdefault("a64db:annot:" + rec_id(rec), []).append("%s: `%s` is encodable (LLVM: %s)" % (c["vclass"], c["text"], llvm.hex()))
             if c["status"] == "bad" and not refuted:
                 cnt["accepted_but_unencodable"] += 1
                 dtxt = c["dis"][0] if c["dis"] else None
-                chk.violation(site_key(labels, enc, c["opidx"], c["what"]),
+                chk.violation(site_key(labels, enc, c["opidx"], c["what"], recs[c["rec"]]["name"].split(".")[0]),
                               "%s [%s] is unencodable (%s) but emit() returned kOk and appended %s (LLVM reads that as `%s`)%s" %
                               (c["line"], sig(rec), c["what"], r["bytes"], dtxt, "; LLVM encodes the text `%s` as %s" % (c["text"], llvm.hex()) if llvm else ""),
                               replay_of(c))
